@@ -52,7 +52,7 @@ Ops(s) ==
   \cup {[op |-> "expand"]}
   \cup {[op |-> o, dim |-> d, aux |-> a] : o \in {"cat", "stack"}, d \in {1, Rank(s)}, a \in {"same", "scale2", "otherq", "plain", "three"}}
   \cup {[op |-> "split", dim |-> d, size |-> 1, take |-> 1] : d \in {d \in 1..Rank(s) : s[d] >= 2}}
-  \cup {[op |-> o, k |-> k] : o \in {"mul", "div"}, k \in {2, 3}}
+  \cup {[op |-> o, k |-> k] : o \in {"mul", "div"}, k \in {2, 3, -1}}
   \cup {[op |-> "div_tensor", aux |-> a] : a \in {"same", "plain"}}
   \cup {[op |-> o] : o \in {"neg", "relu", "clone", "detach", "abs", "add1", "sum", "gelu", "contiguous"}}
   \cup {[op |-> "softmax", dim |-> Rank(s)]}
@@ -117,7 +117,7 @@ QSem(c, o) ==
     [] o.op = "split" ->
          IF PerTensor(c) THEN (IF Dev_C06_SplitStaleSize THEN QB(c, "none", c.shape, fs) ELSE QB(c, "none", fs, fs))
          ELSE Plain(c, fs)
-    [] o.op \in {"mul", "div"} -> QB(c, c.axis, fs, c.pshape)
+    [] o.op \in {"mul", "div"} -> IF o.k > 0 THEN QB(c, c.axis, fs, c.pshape) ELSE Plain(c, fs)    \* only positive scalars are folded into the scale
     [] o.op = "div_tensor" -> Plain(c, fs)
     [] o.op \in {"neg", "relu"} -> IF IntQ(c) THEN QB(c, c.axis, fs, c.pshape) ELSE Plain(c, fs)
     [] o.op \in {"clone", "detach"} -> c
